@@ -352,7 +352,7 @@ def model_line(o):
     new, mock = '(new ok "")', '(mock ok "")'
     fr = fm = fw = ""
     if o["rc"] == 0:
-        mock = "(mock ok %s)" % q(o["file"] if s["out"] else o["stdout"])
+        mock = "(mock ok %s)" % q((o.get("file") if s["out"] else o.get("stdout")) or "")
     elif first.startswith("couldn't load source package"):
         new = "(new err %s)" % q(first)
     elif first.startswith("remove "):
